@@ -111,7 +111,7 @@ func runC07(c *Ctx) {
 		maxEdges = 6
 	}
 	c.Exhaustive = true
-	c.Rule = fmt.Sprintf("explicit priority: all insertion orders of <= %d of 7 prioritised rules (priorities -1, 0, 1, 1, 2, 10, and one that does not parse) x {never loaded, loaded empty, loaded from a store with two rules} followed by a removal, an update that keeps the priority, a batch add and a reload; the listed order and the decision are compared with the Lean model after every call; on the implementation the listed rules must be in non-decreasing priority order with equal priorities in insertion order, and the decision must be the effect of the matching rule of least priority; two prioritised definitions in one model (priority as last field of p, first field of p2, EnforceContext), all insertion orders, never loaded / loaded; subject priority: all role graphs with <= %d links on 4 names (trees, DAGs, cycles, self loops) loaded through the string adapter under a 5 s watchdog, loaded order and decisions vs the model (graphs whose order depends on map iteration are recognised by the model and skipped: finding D22); for forests the deeper subject's rule must precede; non-trivial = a case in which the insertion order differs from the priority order / a graph with at least two levels; distinct = case", maxIns, maxEdges)
+	c.Rule = fmt.Sprintf("explicit priority: all insertion orders of <= %d of 7 prioritised rules (priorities -1, 0, 1, 1, 2, 10, and one that does not parse) x {never loaded, loaded empty, loaded from a store with two rules} followed by a removal, an update that keeps the priority, a batch add and a reload; the listed order and the decision are compared with the Lean model after every call; on the implementation the listed rules must be in non-decreasing priority order with equal priorities in insertion order, and the decision must be the effect of the matching rule of least priority; two prioritised definitions in one model (priority as last field of p, first field of p2, EnforceContext), all insertion orders, never loaded / loaded; subject priority: all role graphs with <= %d links on 4 names (trees, DAGs, cycles, self loops) loaded through the string adapter under a 5 s watchdog (every third with auto-build-role-links off, the links built by hand afterwards), loaded order and decisions vs the model (graphs whose order depends on map iteration are recognised by the model and skipped: finding D22); for forests the deeper subject's rule must precede; non-trivial = a case in which the insertion order differs from the priority order / a graph with at least two levels; distinct = case", maxIns, maxEdges)
 	cands := [][]string{{"-1", "alice", "data1", "read", "deny"}, {"0", "alice", "data1", "read", "allow"}, {"1", "alice", "data1", "read", "deny"},
 		{"1", "alice", "data1", "read", "allow"}, {"2", "alice", "data1", "read", "other"}, {"10", "admin", "data1", "read", "deny"}, {"x", "alice", "data1", "read", "allow"}}
 	ms := prioSpecModel()
@@ -259,6 +259,11 @@ func runC07(c *Ctx) {
 		}
 		text := strings.Join(lines, "\n")
 		s := StartCase(c, msS, CaseOpts{})
+		if c.Evals%3 == 2 {
+			// the order after a load must not depend on whether role links are built automatically
+			s.Do(c, EOp{Kind: "set", Flag: "autobuild", On: false})
+			c.Count("subject_graphs_autobuild_off", 1)
+		}
 		obs := s.ExecGuarded(EOp{Kind: "loadtext", What: "string", Text: text}, 5*time.Second)
 		c.W.Op(EOp{Kind: "loadtext", What: "string", Text: text}.Line(), obs)
 		c.Evals++
@@ -267,6 +272,7 @@ func runC07(c *Ctx) {
 			continue
 		}
 		s.Do(c, EOp{Kind: "obs", Args: []string{"pol", "p", "p"}})
+		s.Do(c, EOp{Kind: "buildlinks"}) // (a no-op with auto-build on; with it off the links are built now)
 		for _, nm := range names {
 			s.Do(c, EOp{Kind: "enf", Req: []V{VS(nm), VS("data1"), VS("read")}})
 		}
